@@ -10,7 +10,7 @@ tie:    T3 differential run of the extracted model against snoopy_filter_only_ui
 import json, os
 from vlib.core import hexs, unhex, corr_stream, VERIF, CheckError
 from vlib.tr_filter import tr_filter
-from vlib.filt import AREA, UIDS, build_impl, uid_list, malformed_list, near_misses, shrink_list, FAST_ASAN
+from vlib.filt import AREA, UIDS, build_impl, uid_list, malformed_list, near_misses, numeral, shrink_list, FAST_ASAN
 
 EUIDS = [0, 7, 1000, 65534, 2 ** 32 - 2]
 
@@ -49,7 +49,7 @@ def gen_cases(rng, tier):
             for w in ("only", "exclude"):
                 add("uidf\t%s\t%d\t%d\t%s" % (w, r, e1, hexs(b"%d" % v)), kind="wf", uid=r, n=1, include=(v == r))
         for k in range(per_uid):
-            n = rng.choice([1, 1, 2, 3, 5, 10, 50, 199, 200]) if k % 4 else rng.randrange(1, 201)
+            n = rng.choice([1, 1, 2, 3, 5, 10, 50, 127, 128, 129, 199, 200, 255, 256, 257, 300, 520]) if k % 4 else rng.randrange(1, 201)
             inc = rng.random() < 0.5
             L = uid_list(rng, r, n, inc)
             e = other_euid(rng, r) if rng.random() < 0.8 else r
@@ -62,8 +62,7 @@ def gen_cases(rng, tier):
                     add("uidf\t%s\t%d\t%d\t%s" % (w, r, e2, hexs(L)), kind="wf", uid=r, n=L.count(b",") + 1, include=inc)
                 if len(L) < 900:
                     add("full\t%d\t%d\t0\t%s" % (r, e, hexs(b"only_uid:" + L)), kind="chain", uid=r)
-                if len(L) < 480:
-                    add("full\t%d\t%d\t0\t%s" % (r, e, hexs(b"exclude_uid:" + L + b";nosuch;only_uid:" + L)), kind="chain", uid=r)
+                    add("full\t%d\t%d\t0\t%s" % (r, e, hexs(b"exclude_uid:" + L)), kind="chain", uid=r)
         for k in range(max(8, per_uid // 6)):
             M = malformed_list(rng, r)
             if b"\x00" in M:
@@ -72,6 +71,13 @@ def gen_cases(rng, tier):
             for w in ("only", "exclude"):
                 add("uidf\t%s\t%d\t%d\t%s" % (w, r, e, hexs(M)), kind="malformed", uid=r)
             add("csv\t%s" % hexs(M), kind="csv", uid=r)
+    # one and the same list under every real uid in turn (a decision must not survive from the previous call)
+    for k in range(6 if tier == "quick" else 60):
+        members = rng.sample(UIDS, rng.choice([1, 2, 4]))
+        L = b",".join(numeral(rng, v) for v in members + [rng.randrange(0, 2 ** 32) for _ in range(rng.choice([0, 3, 30]))])
+        for w in ("only", "exclude"):
+            for r in UIDS + UIDS[::-1]:
+                add("uidf\t%s\t%d\t%d\t%s" % (w, r, other_euid(rng, r), hexs(L)), kind="wf", uid=r, n=L.count(b",") + 1, include=(r in members))
     for k in range(60 if tier == "quick" else 2000):
         raw = bytes(rng.choice(b"01a,,, ") for _ in range(rng.choice([0, 1, 2, 3, 7, 30, 300])))
         add("csv\t%s" % hexs(raw), kind="csv", uid=0)
@@ -81,12 +87,37 @@ def gen_cases(rng, tier):
 def spec_line(cf, rf):
     if cf[0] == "uidf" and len(rf) > 1 and rf[1] in ("P", "D"):
         return "\t".join(["spec14", cf[1], cf[2], cf[4], rf[1]])
+    if cf[0] == "full" and len(rf) > 1 and rf[1] in ("P", "D"):
+        # a chain that consists of one uid filter decides as that filter
+        ch = unhex(cf[4]) or b""
+        for w, pre in (("only", b"only_uid:"), ("exclude", b"exclude_uid:")):
+            if ch.startswith(pre) and b";" not in ch:
+                return "\t".join(["spec14", w, cf[1], hexs(ch[len(pre):]), rf[1]])
+        if ch == b"only_root":
+            return "\t".join(["spec14", "root", cf[1], "-", rf[1]])
     return None
 
 
 def fails(run, exe, case):
-    r = corr_stream(run, AREA, exe, [case], spec_line=spec_line, stream="shrink", impl_env=FAST_ASAN)
+    seq = case if isinstance(case, list) else [case]
+    r = corr_stream(run, AREA, exe, seq, spec_line=spec_line, stream="shrink", impl_env=FAST_ASAN)
     return bool(r["spec_bad"] or r["faults"])
+
+
+def reproduce(run, exe, cases, i):
+    """the case alone (minimised) when it fails alone; otherwise the shortest run of preceding cases of the same stream that
+    makes it fail again in one process (a decision that depends on earlier calls)"""
+    if exe is None:
+        return [cases[i]]
+    if fails(run, exe, cases[i]):
+        return [minimise(run, exe, cases[i])]
+    for k in (1, 2, 4, 8, 16, 64, 256, i):
+        seq = cases[max(0, i - k): i + 1]
+        if fails(run, exe, seq):
+            return seq
+        if k >= i:
+            break
+    return [cases[i]]
 
 
 def minimise(run, exe, case):
@@ -108,32 +139,37 @@ def classify(run, res, cases, stream, exe=None):
     shrunk = set()
     for (i, c, impl, sp) in res["spec_bad"]:
         f = c.split("\t")
+        if f[0] == "full":
+            run.violation("spec:chain-of-one-uid-filter", "spec_violation", "the chain %r under real uid %s (effective %s) decided %s: not the membership of the real uid"
+                          % ((unhex(f[4]) or b"")[:120], f[1], f[2], impl.split("\t")[1]),
+                          {"stream": stream, "failing_input": c, "impl_output": impl, "model_output": res["model"][i], "cases": [c]})
+            nv += 1
+            continue
         sig = "spec:%s-membership" % f[1]
+        seq = [c]
         if sig not in shrunk and len(shrunk) < 4:
             shrunk.add(sig)
-            c = minimise(run, exe, c)
+            seq = reproduce(run, exe, cases, i)
+            c = seq[-1]
             f = c.split("\t")
         arg = unhex(f[4]) or b""
         run.violation("spec:%s-membership" % f[1], "spec_violation",
                       "%s under real uid %s (effective %s) answered %s for the list %r: not the membership of the real uid"
-                      % ({"only": "only_uid", "exclude": "exclude_uid", "root": "only_root"}[f[1]], f[2], f[3], impl.split("\t")[1], arg[:120]),
-                      {"stream": stream, "failing_input": c, "impl_output": impl, "model_output": res["model"][i], "cases": [c]})
+                      % ({"only": "only_uid", "exclude": "exclude_uid", "root": "only_root"}[f[1]], f[2], f[3], impl.split("\t")[1], arg[:120])
+                      + (" (as the last of %d calls in one process)" % len(seq) if len(seq) > 1 else ""),
+                      {"stream": stream, "failing_input": c, "impl_output": impl, "model_output": res["model"][i], "cases": seq})
         nv += 1
     for (i, c, impl) in res["faults"]:
         sig = "fault:%s" % impl.split("\t")[0]
+        seq = [c]
         if sig not in shrunk and len(shrunk) < 4:
             shrunk.add(sig)
-            c = minimise(run, exe, c)
-        run.violation(sig, "sanitizer", "implementation faulted (%s) on %s" % (impl, "\t".join(c.split("\t")[:4]) + "\t" + repr((unhex(c.split("\t")[-1]) or b"")[:80])),
-                      {"stream": stream, "failing_input": c, "impl_output": impl, "model_output": res["model"][i], "cases": [c]})
+            seq = reproduce(run, exe, cases, i)
+            c = seq[-1]
+        run.violation(sig, "sanitizer", "implementation faulted (%s) on %s" % (impl, "\t".join(c.split("\t")[:4]) + "\t" + repr((unhex(c.split("\t")[-1]) or b"")[:80]))
+                      + (" (as the last of %d calls in one process)" % len(seq) if len(seq) > 1 else ""),
+                      {"stream": stream, "failing_input": c, "impl_output": impl, "model_output": res["model"][i], "cases": seq})
         nv += 1
-    # a chain holding both list filters with the same list drops for every uid
-    for i, (c, o) in enumerate(zip(cases, res["impl"])):
-        f = c.split("\t")
-        if f[0] == "full" and (unhex(f[4]) or b"").startswith(b"exclude_uid:") and b";nosuch;only_uid:" in (unhex(f[4]) or b"") and o == "ok\tP":
-            run.violation("spec:complement-chain", "spec_violation", "the chain exclude_uid:L;nosuch;only_uid:L passed under real uid %s" % f[1],
-                          {"stream": stream, "failing_input": c, "impl_output": o, "model_output": res["model"][i], "cases": [c]})
-            nv += 1
     # complement and independence of the effective uid, on the implementation's verdicts
     by = {}
     for c, o in zip(cases, res["impl"]):
@@ -196,7 +232,7 @@ def check(run):
     run.coverage.update({
         "evaluations": len(allcases), "distinct_nontrivial": distinct,
         "rule": "per real uid in %s (effective uid unrelated): the uid itself and each near miss (uid+-1, decimal prefixes and suffixes, x10, +2^31) as one-element lists; "
-                "well-formed lists of 1..200 numerals (leading zeros, duplicates, any order) with and without the uid; the same list under a second effective uid and inside a chain; "
+                "well-formed lists of 1..520 numerals (leading zeros, duplicates, any order) with and without the uid; the same list under a second effective uid and inside a chain; "
                 "malformed lists for complement / crash freedom; csvToArgList on random strings; non-trivial = distinct well-formed case with >= 2 entries" % UIDS,
         "samples": [c[:300] for c in allcases[:: max(1, len(allcases) // 5)]][:5],
         "distribution": {"uids": UIDS, "corpus_cases": len(corp), "kinds": {k: sum(1 for m in meta if m["kind"] == k) for k in ("wf", "malformed", "root", "chain", "csv")},
